@@ -1,8 +1,8 @@
 package rules
 
 import (
-	"go/ast"
 	"fmt"
+	"go/ast"
 	"go/token"
 	"go/types"
 	"math/big"
